@@ -1349,6 +1349,42 @@ func (g *Graph) resolveCall(e ast.Expr) *ast.CallExpr {
 	return nil
 }
 
+// okFlagCall: a function of this module that reports success by a trailing bool instead of an error (`v, ok := f()`):
+// the fact `ok` (with the value succeeded) stands for the nil error of that call. The flag is the only bool among the
+// results and the last of them, so the variable cannot be another result.
+func (g *Graph) okFlagCall(ft Fact, succeeded bool) *ast.CallExpr {
+	id, isId := ast.Unparen(ft.E).(*ast.Ident)
+	if !isId || ft.Val != succeeded {
+		return nil
+	}
+	if b, isB := g.Fn.Info().TypeOf(id).(*types.Basic); !isB || b.Kind() != types.Bool {
+		return nil
+	}
+	rhs, _ := g.DefOf(id, g.FactSite(id))
+	if rhs == nil {
+		return nil
+	}
+	c, isCall := ast.Unparen(rhs).(*ast.CallExpr)
+	if !isCall {
+		return nil
+	}
+	fo, _ := g.Fn.Callee(c).(*types.Func)
+	if fo == nil || fo.Pkg() == nil || !strings.HasPrefix(fo.Pkg().Path(), Module) {
+		return nil
+	}
+	res := fo.Type().(*types.Signature).Results()
+	if res.Len() < 2 {
+		return nil
+	}
+	for i := 0; i < res.Len(); i++ {
+		b, isB := res.At(i).Type().(*types.Basic)
+		if (isB && b.Kind() == types.Bool) != (i == res.Len()-1) {
+			return nil
+		}
+	}
+	return c
+}
+
 // GCallTrue: the fact states that a call to one of `names` returned true
 // (directly, or through a boolean local assigned from it). argOK may inspect the
 // call's arguments.
@@ -1369,6 +1405,9 @@ func (g *Graph) GCallBool(val bool, argOK func(*ast.CallExpr) bool, names ...str
 // nil (`f() == nil`, or `err == nil` where err was assigned from the call).
 func (g *Graph) GCallNil(isNil bool, argOK func(*ast.CallExpr) bool, names ...string) Guard {
 	return GFunc(func(ft Fact) bool {
+		if c := g.okFlagCall(ft, isNil); c != nil {
+			return g.Fn.IsCallTo(c, names...) != nil && (argOK == nil || argOK(c))
+		}
 		x, y, eq, ok := EqParts(ft)
 		if !ok {
 			return false
